@@ -145,8 +145,11 @@ Example C02_vm_correct_example : exists M, compile_program ex_prog = Some M /\
 Proof. exact ex_prog_correct. Qed.
 Print Assumptions C02_vm_correct_example.
 
-(* ... and the hypothesis about the implicit-return check is necessary: `fn f() { if c { return } }` falls off its code *)
-Example C02_vm_epilogue_hypothesis_needed : exists M, compile_program ex_fall = Some M /\
-  run_ref 50%nat ex_fall = Done [55; 10]%N 0 /\ run_vm 500%nat M = VFellOff [].
-Proof. exact epilogue_hypothesis_needed. Qed.
-Print Assumptions C02_vm_epilogue_hypothesis_needed.
+(* regression for the implicit-return epilogue: `fn f() { if c { return } }` with c false used to run off the end of its
+   bytecode (VFellOff); with the unconditional epilogue it is an ordinary instance of the theorem *)
+Example C02_vm_fall_through_returns_void : exists M, compile_program ex_fall = Some M /\
+  run_ref 50%nat ex_fall = Done [55; 10]%N 0 /\
+  ((exists fuel', run_vm fuel' M = VDone [55; 10]%N 0) \/ (exists fuel' o, run_vm fuel' M = VError ECallDepth o)) /\
+  run_vm 500%nat M = VDone [55; 10]%N 0.
+Proof. exact fall_through_returns_void. Qed.
+Print Assumptions C02_vm_fall_through_returns_void.
